@@ -218,7 +218,8 @@ def forge_contract(value: str) -> bytes:
 
     :param value: 'tz12345' or 'tz12345%default'
     """
-    parts = value.split('%')
+    # NOTE: the entrypoint name is everything after the first '%' (names may contain '%' themselves)
+    parts = value.split('%', 1)
     address, entrypoint = (parts[0], parts[1]) if len(parts) == 2 else (parts[0], 'default')
     res = forge_address(address)
     if entrypoint != 'default':
